@@ -159,6 +159,8 @@ def plan(tier, seed):
         ch.append({'k': 'pairs', 'first': i, 'depth': 2 if tier == 'quick' else 3})
     ch.append({'k': 'dir'})
     ch.append({'k': 'fresh_process'})
+    # the same under python -O (assertions stripped, __debug__ false)
+    ch += [dict(c, optimize=True) for c in [{'k': 'dir'}, {'k': 'bfs', 'first': 0, 'depth': 2}]]
     return ch
 
 
@@ -440,6 +442,9 @@ _orig_run_chunk = run_chunk
 
 
 def run_chunk(chunk):       # noqa: F811  (adds the sub-interpreter entry point)
+    routed = subchunk.route(__name__, chunk)
+    if routed is not None:
+        return routed
     if chunk['k'] == 'refs_only':
         res = ChunkResult()
         res.extra['refs'] = [core.h8(json.dumps(reference(i, hard=True))) for i in range(len(EVENTS))]   # purge + re-import per event
